@@ -8,7 +8,7 @@
     panic.  A Go slice that may be nil is an [option (list Z)].  The two [for]
     loops over chunks run on the remaining suffix ([payload[pos:]]) with explicit
     fuel; running out of fuel is the error [E_fuel], which [DemuxTotal] proves
-    unreachable with fuel = length of the input.
+    unreachable.
 
     The parameter [fx : bool] selects the pinned code ([false]) or the code with
     the patch work/patches/c05-demux-riff-size.diff applied ([true]): the only
@@ -198,7 +198,7 @@ Definition set_frames (d : dstate) (fs : list frame_info) : dstate :=
   mkd (d_chunks d) (d_feat d) fs (d_icc d) (d_exif d) (d_xmp d) (d_bg d) (d_loop d).
 
 (** parseANMF *)
-Definition parse_anmf (fuel : nat) (d : dstate) (data : list Z) : Res dstate :=
+Definition parse_anmf (d : dstate) (data : list Z) : Res dstate :=
   if len data <? ANMFChunkSize then Err E_anmf else
   match data with
   | x0 :: x1 :: x2 :: y0 :: y1 :: y2 :: w0 :: w1 :: w2 :: h0 :: h1 :: h2 ::
@@ -212,7 +212,7 @@ Definition parse_anmf (fuel : nat) (d : dstate) (data : list Z) : Res dstate :=
     if width * height >=? MaxImageArea then Err E_anmf else
     let dispose := if negb (fl mod 2 =? 0) then 1 else 0 in
     let blend := if negb ((fl / 2) mod 2 =? 0) then 1 else 0 in
-    '(img, alpha) <- anmf_loop fuel framePayload None None ;;
+    '(img, alpha) <- anmf_loop (S (length framePayload)) framePayload None None ;;
     hasA <- (if 0 <? olen alpha then Ok true
              else match img with
                   | Some i => if 0 <? len i then frame_data_has_alpha i else Ok false
@@ -246,8 +246,8 @@ Fixpoint single_loop (fuel : nat) (p : list Z) (img alpha : option (list Z))
   end.
 
 (** parseSingleExtendedFrame *)
-Definition parse_single_ext (fuel : nat) (d : dstate) (payload : list Z) : Res dstate :=
-  '(img, alpha) <- single_loop fuel payload None None ;;
+Definition parse_single_ext (d : dstate) (payload : list Z) : Res dstate :=
+  '(img, alpha) <- single_loop (S (length payload)) payload None None ;;
   match img with
   | None => Err E_noimage
   | Some i =>
@@ -265,7 +265,7 @@ Definition set_xmp (d : dstate) (x : list Z) : dstate :=
   mkd (d_chunks d) (d_feat d) (d_frames d) (d_icc d) (d_exif d) (Some x) (d_bg d) (d_loop d).
 
 (** the switch inside parseExtended's loop; [rest] is payload[pos:] *)
-Definition ext_dispatch (fuel : nat) (d : dstate) (c : chunk) (rest : list Z) : Res dstate :=
+Definition ext_dispatch (d : dstate) (c : chunk) (rest : list Z) : Res dstate :=
   let id := c_id c in
   if id =? FCC_ICCP then
     (if len (c_data c) >? maxMetadataSize then Err E_meta else Ok (set_icc d (c_data c)))
@@ -274,10 +274,10 @@ Definition ext_dispatch (fuel : nat) (d : dstate) (c : chunk) (rest : list Z) : 
   else if id =? FCC_XMP then
     (if len (c_data c) >? maxMetadataSize then Err E_meta else Ok (set_xmp d (c_data c)))
   else if id =? FCC_ANIM then parse_anim d (c_data c)
-  else if id =? FCC_ANMF then parse_anmf fuel d (c_data c)
+  else if id =? FCC_ANMF then parse_anmf d (c_data c)
   else if (id =? FCC_VP8) || (id =? FCC_VP8L) || (id =? FCC_ALPH) then
     (if negb (ft_anim (d_feat d)) && (len (d_frames d) =? 0)
-     then parse_single_ext fuel d rest else Ok d)
+     then parse_single_ext d rest else Ok d)
   else Ok d.
 
 (** the chunk loop of parseExtended, on the suffix payload[pos:] *)
@@ -290,14 +290,14 @@ Fixpoint ext_loop (fuel : nat) (rest : list Z) (d : dstate) : Res dstate :=
     | Panic => Panic
     | Err _ => Ok d
     | Ok (c, n) =>
-      d2 <- ext_dispatch f (add_chunk d c) c rest ;;
+      d2 <- ext_dispatch (add_chunk d c) c rest ;;
       rest' <- slice rest n (len rest) ;;
       ext_loop f rest' d2
     end
   end.
 
 (** parseExtended *)
-Definition parse_extended (fuel : nat) (payload : list Z) : Res dstate :=
+Definition parse_extended (payload : list Z) : Res dstate :=
   '(vp8x, consumed) <- read_chunk payload ;;
   if c_size vp8x <? VP8XChunkSize then Err E_vp8x else
   match c_data vp8x with
@@ -308,13 +308,15 @@ Definition parse_extended (fuel : nat) (payload : list Z) : Res dstate :=
     let ft := mkfeat cw ch (bit 16) (bit 2) (bit 32) (bit 8) (bit 4) 3 in
     let d := mkd [vp8x] ft [] None None None 0 0 in
     rest <- slice payload consumed (len payload) ;;
-    d' <- ext_loop fuel rest d ;;
+    d' <- ext_loop (S (length rest)) rest d ;;
     if len (d_frames d') =? 0 then Err E_noimage else Ok d'
   | _ => Panic
   end.
 
-(** Demuxer.parse.  [fx = true]: with the RIFF-size patch. *)
-Definition parse_fuel (fx : bool) (fuel : nat) (data : list Z) : Res dstate :=
+(** Demuxer.parse = NewDemuxer.  [fx = true]: with the RIFF-size patch.  Every
+    loop runs with fuel = 1 + length of the bytes it walks (each iteration consumes
+    at least 8 of them; sufficiency is proved in DemuxTotal). *)
+Definition parse (fx : bool) (data : list Z) : Res dstate :=
   if len data <? RIFFHeaderSize then Err E_riff else
   riffTag <- u32at data 0 ;;
   if negb (riffTag =? FCC_RIFF) then Err E_riff else
@@ -328,14 +330,10 @@ Definition parse_fuel (fx : bool) (fuel : nat) (data : list Z) : Res dstate :=
   payload <- slice data RIFFHeaderSize total64 ;;
   if len payload <? ChunkHeaderSize then Err E_noimage else
   firstTag <- u32at payload 0 ;;
-  if firstTag =? FCC_VP8X then parse_extended fuel payload
+  if firstTag =? FCC_VP8X then parse_extended payload
   else if firstTag =? FCC_VP8 then parse_simple_vp8 payload
   else if firstTag =? FCC_VP8L then parse_simple_vp8l payload
   else Err E_unknown.
-
-(** NewDemuxer: fuel = length of the input (proved sufficient in DemuxTotal). *)
-Definition parse (fx : bool) (data : list Z) : Res dstate :=
-  parse_fuel fx (length data) data.
 
 (** Demuxer.Frame(index) *)
 Definition frame (d : dstate) (i : Z) : Res frame_info :=
